@@ -1182,6 +1182,8 @@ class SE3(SO3):
         """
         if base.isvector(S, 6):
             return cls(base.trexp(base.getvector(S)), check=False)
+        elif base.ismatrix(S, (4, 4)):
+            return cls(base.trexp(S), check=False)
         else:
             return cls([base.trexp(s) for s in S], check=False)
             
